@@ -65,6 +65,12 @@ CLAIMED = {
         "note": "Trusted: z3, symx, C02's affine_transform contract, real dask.delayed. Not covered: interpolation accuracy off-grid; simulate_projection/tilt series/colour.",
         "ref": "DESIGN.md §4 C14",
     },
+    "C07": {
+        "text": "ncc()/zncc() and the ZNCC/NCC alignment models executed on tiny boxes with all voxels, mask values, gain and offset symbolic over an exact-DFT / convolution-theorem FFT stub, square roots opaque so that every score is N/Sqrt(R): z3 proves N and R equal (up to a positive constant) to covariance and variance product of the masked images (Pearson r / uncentred NCC), N*N=R for identical inputs, gain/offset scaling laws, "
+                "and - for ZNCC - that the zero-range landscape centre and the zero-range alignment score are the same number as score(); the mask->low-pass->wedge argument flow is the same in score, landscape and align.",
+        "note": "Trusted: z3, symx, FFTStub (exact DFT for lengths 1,2,4; convolution theorem), NdiStub (interpolation exact at nodes), Cauchy-Schwarz as a lemma for [-1,1] (solver-checked up to 3 voxels). Bounds: boxes (1,1,2),(1,2,2),(1,1,3) quick, up to (2,2,3)/(1,1,4) thorough. NOT covered: FSC score/landscape agreement, 'landscape maximum at the reported displacement' (index conventions are C04), larger boxes, float32 error.",
+        "ref": "DESIGN.md §4 C07",
+    },
     "C08": {
         "text": "All three mask implementations executed with the tilt pair symbolic on the unit circle (-90<=min<max<=90) and exact rational orientations: for every Fourier bin z3 (nlsat) decides kept <=> the physical frequency (FFT-ordered index / box length) mapped by the orientation lies between the two tilt planes; "
                 "plus DC kept, k<->-k symmetry off the Nyquist planes, no-wedge = ones, dual-axis = union, and tilt=(a,b) / model object / tilt_range=(a,b) / None dispatch of TomographyInput.",
